@@ -117,37 +117,61 @@ _TREE_HASH = {}
 CMD_VERSION = "kani-flags-v2: -Z stubbing --no-memory-safety-checks --no-assertion-reach-checks field-sens"
 
 
-def tree_hash(variant_key):
-    """Content hash of everything a verdict depends on: /repo sources, the
-    harness tree, this framework's code, the overlay variant, the Kani version."""
+def _sha(paths, extra=b""):
     import hashlib
-    if variant_key in _TREE_HASH:
-        return _TREE_HASH[variant_key]
     h = hashlib.sha256()
-    verif = os.path.dirname(os.path.dirname(os.path.abspath(__file__)))
-    repo = os.environ.get("VERIF_REPO", "/repo")
-    # what a verdict depends on: the crate, the harness tree, the overlay builder
-    # (rewrites, generated files) and the Kani/CBMC flags (part of the key via `flags`)
-    roots = [os.path.join(repo, "src"), os.path.join(verif, "harness")]
-    files = [os.path.join(repo, "Cargo.toml"), os.path.join(repo, "Cargo.lock"),
-             os.path.join(verif, "vlib", "overlay.py"), os.path.join(verif, "vlib", "shapes.py")]
-    for r in roots:
-        for dp, dn, fn in os.walk(r):
-            dn.sort()
-            for f in sorted(fn):
-                if f.endswith(".pyc"):
-                    continue
-                files.append(os.path.join(dp, f))
-    for f in files:
+    for f in paths:
         h.update(f.encode())
         try:
             h.update(open(f, "rb").read())
         except OSError:
             h.update(b"<missing>")
-    h.update(repr(variant_key).encode())
-    h.update(b"kani-0.68.0")
-    _TREE_HASH[variant_key] = h.hexdigest()
-    return _TREE_HASH[variant_key]
+    h.update(extra)
+    return h.hexdigest()
+
+
+def _walk(root):
+    out = []
+    for dp, dn, fn in os.walk(root):
+        dn.sort()
+        for f in sorted(fn):
+            if not f.endswith(".pyc"):
+                out.append(os.path.join(dp, f))
+    return out
+
+
+def tree_hash(variant_key, harness=None):
+    """Content hash of everything a verdict of `harness` depends on: /repo's
+    sources, the common harness files, the harness's own file and the harness
+    files it imports (transitively), the overlay builder (rewrites, generated
+    files), the overlay variant."""
+    key = (variant_key, harness)
+    if key in _TREE_HASH:
+        return _TREE_HASH[key]
+    verif = os.path.dirname(os.path.dirname(os.path.abspath(__file__)))
+    repo = os.environ.get("VERIF_REPO", "/repo")
+    hd = os.path.join(verif, "harness")
+    files = _walk(os.path.join(repo, "src")) + [os.path.join(repo, "Cargo.toml"), os.path.join(repo, "Cargo.lock"),
+             os.path.join(verif, "vlib", "overlay.py"), os.path.join(verif, "vlib", "shapes.py")]
+    common = sorted(f for f in os.listdir(hd) if f.endswith(".rs") and not f.startswith("h_"))
+    files += [os.path.join(hd, f) for f in common]
+    if harness is None:
+        files += [os.path.join(hd, f) for f in sorted(os.listdir(hd)) if f.startswith("h_")]
+    else:
+        stem = qualify(harness).split("::")[-2]
+        todo, seen = [stem], set()
+        while todo:
+            m = todo.pop()
+            if m in seen:
+                continue
+            seen.add(m)
+            fp = os.path.join(hd, m + ".rs")
+            if os.path.exists(fp):
+                for dep in re.findall(r"use super::(h_\w+)", open(fp).read()):
+                    todo.append(dep)
+        files += [os.path.join(hd, m + ".rs") for m in sorted(seen)]
+    _TREE_HASH[key] = _sha(files, repr(variant_key).encode() + b"kani-0.68.0")
+    return _TREE_HASH[key]
 
 
 def cache_path(name, variant_key, flags):
@@ -155,7 +179,7 @@ def cache_path(name, variant_key, flags):
     d = os.path.join(verif, "build", "cache")
     os.makedirs(d, exist_ok=True)
     import hashlib
-    k = hashlib.sha256((tree_hash(variant_key) + "|" + name + "|" + repr(flags) + "|" + CMD_VERSION).encode()).hexdigest()[:32]
+    k = hashlib.sha256((tree_hash(variant_key, name) + "|" + name + "|" + repr(flags) + "|" + CMD_VERSION).encode()).hexdigest()[:32]
     return os.path.join(d, "%s-%s.json" % (name, k))
 
 
